@@ -113,6 +113,8 @@ enum Elt {
     Lit(&'static str),
     Var(&'static str),
     Digits(&'static str),
+    /// a variable followed, inside the same segment, by literal text
+    VarSuffix(&'static str, &'static str),
 }
 
 fn elt_match(e: &Elt, seg: &str) -> Option<Option<(&'static str, String)>> {
@@ -121,6 +123,7 @@ fn elt_match(e: &Elt, seg: &str) -> Option<Option<(&'static str, String)>> {
         Elt::Var(n) => (!seg.is_empty()).then(|| Some((*n, seg.to_string()))),
         Elt::Digits(n) => (!seg.is_empty() && seg.chars().all(|c| c.is_ascii_digit()))
             .then(|| Some((*n, seg.to_string()))),
+        Elt::VarSuffix(n, suffix) => seg.strip_suffix(suffix).filter(|v| !v.is_empty()).map(|v| Some((*n, v.to_string()))),
     }
 }
 
@@ -170,6 +173,7 @@ fn match_resource(p: RP, rem: &[&str]) -> Option<Params> {
         RP::Tail => (!rem.is_empty()).then(|| vec![("t".to_string(), rem.join("/"))]),
         RP::Multi => full(&[Elt::Lit("a")]).or_else(|| full(&[Elt::Lit("b")])),
         RP::MultiEmpty => full(&[]).or_else(|| full(&[Elt::Lit("b")])),
+        RP::DynDot => full(&[Elt::VarSuffix("x", ".b")]),
     }
 }
 
